@@ -617,6 +617,10 @@ class Explorer:
                 if res is not None:
                     ret, pure = res
                     ev['inlined'] = True
+        # allocation: a fresh object (unique identity, kept as an opaque call node) that touches no existing memory
+        if ret is None and re.match(r'^(std::boxed::Box::<T>::new|std::rc::Rc::<T>::new|std::cell::RefCell::<T>::new|std::cell::UnsafeCell::<T>::new)$', name):
+            ret, pure = ('call', name, args, site), True
+            ev['alloc'] = True
         if ret is None and ev.get('fn_target') and self.purity is not None and self.purity.is_pure(ev['fn_target']):
             pure = True
             ret = ('pcall', ev['fn_target'], args, st.epoch)
